@@ -201,3 +201,340 @@ Example C08_nonvacuous_unfixed_zip_witness :
     (fst (run 7 (save_prog_unfixed SZip MW 0 1 2 [0; 1; 2]%Z [500; 501; 502]%Z) (fun _ => Absent))) 0
   = LObj [500]%Z.
 Proof. vm_compute. reflexivity. Qed.
+
+(* ================================================================================================
+   ROUND 3 EXTENSION (model/C08_Model_Ext.v, proof/C08_Proofs_Ext.v)
+     resolve a s                   (store, name) save() really uses for the arguments (store = a, path = s):
+                                   store "auto" inferred from the suffix, ".zip" appended for the zip store
+     call_prog loc tmp a s m ...   effects of the CALL save(s, mode = m, store = a): existence check of the
+                                   resolved location first, then refusal (ValueError) or save_prog at it
+     run_call loc tmp k a s m ...  its run with a fault at k; outcome CValue = refused with ValueError
+     run_x E k prog fs             `run` in an environment E: hrun E = behaviour of (possibly failing)
+                                   clean-up handlers, inside E = what an effect interrupted part-way leaves
+     run_exc g x k prog fs         `run` with the class x of the propagating exception explicit; handler h
+                                   runs iff its guard g h catches x
+   Concurrency (two saves / a save and a load racing on one target) is OUT OF SCOPE of the model and
+   of the property's quantifier; all statements are about one save at a time. *)
+From Coq Require Import String Ascii.
+From QV.model Require Import C08_Model_Ext.
+From QV.proof Require Import C08_Proofs_Ext.
+
+(* ---------------------------------------------------------------- path resolution *)
+(* a zip store is always written under a name that ends in ".zip" *)
+Theorem C08_resolve_zip_suffix :
+  forall (a : store_arg) (s : string),
+    fst (resolve a s) = AZip -> ends_with zipsuf (snd (resolve a s)) = true.
+Proof. exact resolve_zip_suffix. Qed.
+Print Assumptions C08_resolve_zip_suffix.
+
+(* the name is the one given or the one given + ".zip", and only the zip store appends *)
+Theorem C08_resolve_name_cases :
+  forall (a : store_arg) (s : string),
+    (snd (resolve a s) = s \/ snd (resolve a s) = (s ++ zipsuf)%string) /\
+    (fst (resolve a s) <> AZip -> snd (resolve a s) = s).
+Proof. intros a s. split; [apply resolve_name_cases | apply resolve_other_name]. Qed.
+Print Assumptions C08_resolve_name_cases.
+
+(* resolving is idempotent (the resolved name with the resolved store is the same call), and
+   store = "auto" is the explicit store it infers from the suffix *)
+Theorem C08_resolve_idempotent :
+  forall (a : store_arg) (s : string),
+    resolve (fst (resolve a s)) (snd (resolve a s)) = resolve a s /\
+    resolve AAuto s = resolve (infer AAuto s) s /\
+    (ends_with zipsuf s = true -> resolve AAuto s = (AZip, s)) /\
+    (ends_with zipsuf s = false -> resolve AAuto s = (ADir, s)).
+Proof.
+  intros a s. split; [apply resolve_idem|]. split; [apply resolve_auto|].
+  split; [apply resolve_auto_zip | apply resolve_auto_dir].
+Qed.
+Print Assumptions C08_resolve_idempotent.
+
+(* every site of a call that names the target (existence check, removal, rename) is fed with the
+   location of the RESOLVED name, the staging area is the one derived from that location, and the
+   existence check comes first *)
+Theorem C08_call_sites_resolved :
+  forall (loc : string -> path) (tmp : path -> path * path)
+         (a : store_arg) (s : string) (m : mode) (ws zs : list item),
+    (forall e, In e (call_prog loc tmp a s m ws zs) ->
+       (forall q, In q (target_sites e) -> q = loc (snd (resolve a s))) /\
+       (forall q, In q (staging_sites e) ->
+          q = fst (tmp (loc (snd (resolve a s)))) \/ q = snd (tmp (loc (snd (resolve a s)))))) /\
+    exists rest, call_prog loc tmp a s m ws zs = CheckTarget m (loc (snd (resolve a s))) :: rest.
+Proof.
+  intros loc tmp a s m ws zs. split.
+  - intros e. apply call_sites_resolved.
+  - apply call_check_first.
+Qed.
+Print Assumptions C08_call_sites_resolved.
+
+(* write-once for the call: an existing RESOLVED target is never modified (nor anything else),
+   whatever name / store argument was used, valid or not; save ends with FileExistsError *)
+Theorem C08_call_write_once :
+  forall (loc : string -> path) (tmp : path -> path * path)
+         (a : store_arg) (s : string) (ws zs : list item) (fs : fsys) (k : nat),
+    let p := loc (snd (resolve a s)) in
+    (p <> fst (tmp p) /\ p <> snd (tmp p) /\ fst (tmp p) <> snd (tmp p) /\
+     fs (fst (tmp p)) = Absent /\ fs (snd (tmp p)) = Absent) ->
+    fs p <> Absent ->
+    (forall q, fst (run_call loc tmp k a s MW ws zs fs) q = fs q) /\
+    (1 <= k -> snd (run_call loc tmp k a s MW ws zs fs) = CExists).
+Proof. intros loc tmp a s ws zs fs k p. exact (call_write_once loc tmp a s ws zs fs k). Qed.
+Print Assumptions C08_call_write_once.
+
+(* no call, successful or not, valid or refused, alters any path other than the resolved target
+   (in particular not the location of the name as given when ".zip" was appended) *)
+Theorem C08_call_frame :
+  forall (loc : string -> path) (tmp : path -> path * path)
+         (a : store_arg) (s : string) (m : mode) (ws zs : list item) (fs : fsys) (k : nat) (q : path),
+    let p := loc (snd (resolve a s)) in
+    (p <> fst (tmp p) /\ p <> snd (tmp p) /\ fst (tmp p) <> snd (tmp p) /\
+     fs (fst (tmp p)) = Absent /\ fs (snd (tmp p)) = Absent) ->
+    q <> p ->
+    fst (run_call loc tmp k a s m ws zs fs) q = fs q.
+Proof. intros loc tmp a s m ws zs fs k q p. exact (call_frame loc tmp a s m ws zs fs k q). Qed.
+Print Assumptions C08_call_frame.
+
+(* no partial object becomes loadable at the resolved target, for every fault index of the call *)
+Theorem C08_call_no_partial_loadable :
+  forall (loc : string -> path) (tmp : path -> path * path) (markers : list item)
+         (a : store_arg) (s : string) (m : mode) (ws zs : list item) (fs : fsys) (k : nat),
+    let p := loc (snd (resolve a s)) in
+    (p <> fst (tmp p) /\ p <> snd (tmp p) /\ fst (tmp p) <> snd (tmp p) /\
+     fs (fst (tmp p)) = Absent /\ fs (snd (tmp p)) = Absent) ->
+    match load_model markers (fst (run_call loc tmp k a s m ws zs fs)) p with
+    | LErr => True
+    | LObj c => load_model markers fs p = LObj c \/
+                exists st, validate (fst (resolve a s)) (snd (resolve a s)) = VStore st /\
+                           c = final_content st ws zs
+    end.
+Proof. intros loc tmp markers a s m ws zs fs k p. exact (call_no_partial loc tmp markers a s m ws zs fs k). Qed.
+Print Assumptions C08_call_no_partial_loadable.
+
+(* a refused call (unknown store; directory store with a file-like name) changes nothing and
+   does not return normally; a valid uninterrupted call installs the complete store *)
+Theorem C08_call_refused_or_complete :
+  forall (loc : string -> path) (tmp : path -> path * path)
+         (a : store_arg) (s : string) (m : mode) (ws zs : list item) (fs : fsys) (k : nat),
+    let p := loc (snd (resolve a s)) in
+    ((forall st, validate (fst (resolve a s)) (snd (resolve a s)) <> VStore st) ->
+     (forall q, fst (run_call loc tmp k a s m ws zs fs) q = fs q) /\
+     snd (run_call loc tmp k a s m ws zs fs) <> CDone) /\
+    (forall st,
+       (p <> fst (tmp p) /\ p <> snd (tmp p) /\ fst (tmp p) <> snd (tmp p) /\
+        fs (fst (tmp p)) = Absent /\ fs (snd (tmp p)) = Absent) ->
+       (m = MO \/ fs p = Absent) ->
+       validate (fst (resolve a s)) (snd (resolve a s)) = VStore st ->
+       List.length (call_prog loc tmp a s m ws zs) <= k ->
+       fst (run_call loc tmp k a s m ws zs fs) p = final_entry st ws zs /\
+       snd (run_call loc tmp k a s m ws zs fs) = CDone).
+Proof.
+  intros loc tmp a s m ws zs fs k p. split.
+  - apply call_refused_untouched.
+  - intros st. exact (call_success loc tmp a s m ws zs fs k st).
+Qed.
+Print Assumptions C08_call_refused_or_complete.
+
+(* NECESSITY of checking the resolved location: a protocol whose existence check looks at any
+   other location pc than the one it writes to overwrites an existing target in write-once mode
+   (an uninterrupted save ends normally and the target holds the new store) ... *)
+Theorem C08_check_site_matters :
+  forall (st : store) (pc p ts tz : path) (ws zs : list item),
+    pc <> p -> pc <> ts -> pc <> tz -> p <> ts -> p <> tz -> ts <> tz ->
+    exists fs,
+      (p <> ts /\ p <> tz /\ ts <> tz /\ fs ts = Absent /\ fs tz = Absent) /\ fs p <> Absent /\
+      let prog := save_prog_sites st MW pc p p ts tz ws zs in
+      fst (run (List.length prog) prog fs) p <> fs p /\ snd (run (List.length prog) prog fs) = Done /\
+      fst (run (List.length prog) prog fs) p = final_entry st ws zs.
+Proof. exact check_site_matters. Qed.
+Print Assumptions C08_check_site_matters.
+
+(* ... in particular the refactoring that checks the name AS GIVEN while writing to name + ".zip" *)
+Theorem C08_raw_name_check_refuted :
+  forall (loc : string -> path) (tmp : path -> path * path) (s : string) (st : store) (ws zs : list item),
+    ends_with zipsuf s = false ->
+    let p := loc (snd (resolve AZip s)) in
+    let ts := fst (tmp p) in let tz := snd (tmp p) in
+    loc s <> p -> loc s <> ts -> loc s <> tz -> p <> ts -> p <> tz -> ts <> tz ->
+    p = loc (s ++ zipsuf)%string /\
+    exists fs,
+      (p <> ts /\ p <> tz /\ ts <> tz /\ fs ts = Absent /\ fs tz = Absent) /\ fs p <> Absent /\
+      let pr := save_prog_sites st MW (loc s) p p ts tz ws zs in
+      fst (run (List.length pr) pr fs) p <> fs p /\ snd (run (List.length pr) pr fs) = Done.
+Proof. intros loc tmp s st ws zs. exact (raw_name_check_refuted loc tmp s st ws zs). Qed.
+Print Assumptions C08_raw_name_check_refuted.
+
+(* ---------------------------------------------------------------- faults inside clean-up handlers / effects *)
+(* the standard environment is `run` *)
+Theorem C08_run_x_std :
+  forall (k : nat) (prog : list effect) (fs : fsys), run_x std_env k prog fs = run k prog fs.
+Proof. exact run_x_std. Qed.
+Print Assumptions C08_run_x_std.
+
+(* clean-up handlers that fail in ANY way confined to the paths they were registered for
+   (TemporaryDirectory.__exit__ raising, leaving the staging area; ZipFile.__exit__ raising), and
+   effects interrupted part-way in ANY way confined to the staging area: the target and every
+   path outside the staging area end exactly as in the model without such failures, and save()
+   ends the same way — so all theorems above carry over ... *)
+Theorem C08_cleanup_faults_agree :
+  forall (E : env) (st : store) (m : mode) (p ts tz : path) (ws zs : list item) (fs : fsys) (k : nat) (q : path),
+    p <> ts /\ p <> tz /\ ts <> tz /\ fs ts = Absent /\ fs tz = Absent ->
+    ((forall h f r, ~ In r (htouches h) -> hrun E h f r = f r) /\
+     (forall e f r, r <> ts -> r <> tz -> inside E e f r = f r)) ->
+    q <> ts -> q <> tz ->
+    fst (run_x E k (save_prog st m p ts tz ws zs) fs) q = fst (run k (save_prog st m p ts tz ws zs) fs) q /\
+    snd (run_x E k (save_prog st m p ts tz ws zs) fs) = snd (run k (save_prog st m p ts tz ws zs) fs).
+Proof. intros E st m p ts tz ws zs fs k q H HE. exact (run_x_target_safe E st m p ts tz ws zs fs k q H HE). Qed.
+Print Assumptions C08_cleanup_faults_agree.
+
+(* ... in particular: no partial object becomes loadable, and write-once holds *)
+Theorem C08_no_partial_loadable_any_cleanup :
+  forall (E : env),
+    (forall ts tz : path,
+       (forall h f r, ~ In r (htouches h) -> hrun E h f r = f r) /\
+       (forall e f r, r <> ts -> r <> tz -> inside E e f r = f r)) ->
+    forall (markers : list item) (st : store) (m : mode) (p ts tz : path) (ws zs : list item)
+           (fs : fsys) (k : nat),
+      p <> ts /\ p <> tz /\ ts <> tz /\ fs ts = Absent /\ fs tz = Absent ->
+      match load_model markers (fst (run_x E k (save_prog st m p ts tz ws zs) fs)) p with
+      | LErr => True
+      | LObj c => load_model markers fs p = LObj c \/ c = final_content st ws zs
+      end.
+Proof. intros E HE. apply (no_partial_any_cleanup E). intros p ts tz. exact (HE ts tz). Qed.
+Print Assumptions C08_no_partial_loadable_any_cleanup.
+
+Theorem C08_write_once_any_cleanup :
+  forall (E : env) (st : store) (p ts tz : path) (ws zs : list item) (fs : fsys) (k : nat) (q : path),
+    ((forall h f r, ~ In r (htouches h) -> hrun E h f r = f r) /\
+     (forall e f r, r <> ts -> r <> tz -> inside E e f r = f r)) ->
+    p <> ts /\ p <> tz /\ ts <> tz /\ fs ts = Absent /\ fs tz = Absent ->
+    fs p <> Absent -> q <> ts -> q <> tz ->
+    fst (run_x E k (save_prog st MW p ts tz ws zs) fs) q = fs q /\
+    (1 <= k -> snd (run_x E k (save_prog st MW p ts tz ws zs) fs) = ErrExists).
+Proof. intros E st p ts tz ws zs fs k q HE. exact (write_once_any_cleanup E st p ts tz ws zs fs k q HE). Qed.
+Print Assumptions C08_write_once_any_cleanup.
+
+(* what does NOT survive a failing TemporaryDirectory clean-up: the staging area stays behind
+   (the frame clause cannot hold for the temporary sibling itself) *)
+Theorem C08_stuck_cleanup_leaves_staging :
+  exists st m p ts tz ws zs fs k,
+    (p <> ts /\ p <> tz /\ ts <> tz /\ fs ts = Absent /\ fs tz = Absent) /\
+    fst (run_x stuck_env k (save_prog st m p ts tz ws zs) fs) ts <> fs ts.
+Proof. exact stuck_leaves_staging. Qed.
+Print Assumptions C08_stuck_cleanup_leaves_staging.
+
+(* shutil.rmtree of an old DIRECTORY target (mode 'o') is not atomic.  Interrupted part-way,
+   keeping the items `keep c` of the old store c: nothing but the target changes, save ends as in
+   the atomic model, and the target is as in the atomic model or the old store cut down to
+   `keep c` ... *)
+Theorem C08_interrupted_removal :
+  forall (keep : list item -> list item) (st : store) (m : mode) (p ts tz : path) (ws zs : list item)
+         (fs : fsys) (k : nat),
+    p <> ts /\ p <> tz /\ ts <> tz /\ fs ts = Absent /\ fs tz = Absent ->
+    let r := run_x (rm_env keep p) k (save_prog st m p ts tz ws zs) fs in
+    (forall q, q <> p -> fst r q = fs q) /\
+    snd r = snd (run k (save_prog st m p ts tz ws zs) fs) /\
+    (fst r p = fst (run k (save_prog st m p ts tz ws zs) fs) p \/
+     exists c, fs p = Dir c /\ fst r p = Dir (keep c) /\ snd r = Faulted).
+Proof. exact interrupted_removal. Qed.
+Print Assumptions C08_interrupted_removal.
+
+(* ... so load() afterwards fails, returns what it returned before, the complete new object, or a
+   SUB-OBJECT OF THE OLD directory store; the last case is impossible when the old target is a
+   file (os.remove is atomic) or absent *)
+Theorem C08_interrupted_removal_load :
+  forall (markers : list item) (keep : list item -> list item) (st : store) (m : mode) (p ts tz : path)
+         (ws zs : list item) (fs : fsys) (k : nat),
+    p <> ts /\ p <> tz /\ ts <> tz /\ fs ts = Absent /\ fs tz = Absent ->
+    match load_model markers (fst (run_x (rm_env keep p) k (save_prog st m p ts tz ws zs) fs)) p with
+    | LErr => True
+    | LObj c' => load_model markers fs p = LObj c' \/ c' = final_content st ws zs \/
+                 exists c, fs p = Dir c /\ c' = keep c
+    end.
+Proof. exact interrupted_removal_load. Qed.
+Print Assumptions C08_interrupted_removal_load.
+
+Theorem C08_interrupted_removal_file_safe :
+  forall (markers : list item) (keep : list item -> list item) (st : store) (m : mode) (p ts tz : path)
+         (ws zs : list item) (fs : fsys) (k : nat),
+    p <> ts /\ p <> tz /\ ts <> tz /\ fs ts = Absent /\ fs tz = Absent ->
+    (forall c, fs p <> Dir c) ->
+    match load_model markers (fst (run_x (rm_env keep p) k (save_prog st m p ts tz ws zs) fs)) p with
+    | LErr => True
+    | LObj c' => load_model markers fs p = LObj c' \/ c' = final_content st ws zs
+    end.
+Proof. exact interrupted_removal_file_safe. Qed.
+Print Assumptions C08_interrupted_removal_file_safe.
+
+(* the full statement under an environment; with an interruptible removal of an old directory
+   store it is REFUTED for the current protocol (remove in place, then rename): the position is
+   outside the property's quantifier (value/array/byte writes and zip assembly), the harness
+   reports it as an observation, not as a violation *)
+Definition C08_no_partial_loadable_under (E : env) : Prop :=
+  forall (markers : list item) (st : store) (m : mode) (p ts tz : path) (ws zs : list item)
+         (fs : fsys) (k : nat),
+    p <> ts /\ p <> tz /\ ts <> tz /\ fs ts = Absent /\ fs tz = Absent ->
+    match load_model markers (fst (run_x E k (save_prog st m p ts tz ws zs) fs)) p with
+    | LErr => True
+    | LObj c => load_model markers fs p = LObj c \/ c = final_content st ws zs
+    end.
+
+Theorem C08_interrupted_removal_refuted :
+  ~ C08_no_partial_loadable_under (rm_env (firstn 2) 0).
+Proof. exact interrupted_removal_refuted. Qed.
+Print Assumptions C08_interrupted_removal_refuted.
+
+(* ---------------------------------------------------------------- exception classes *)
+(* save()'s clean-up sites are `with` statements: they run for EVERY class of exception
+   (Exception, KeyboardInterrupt, SystemExit, GeneratorExit, any other BaseException), so a fault
+   of any class at k leaves exactly what `run k` says — every theorem above holds for every class;
+   for subclasses of Exception the kind of guard does not matter ... *)
+Theorem C08_every_exception_class :
+  forall (x : exc_class) (k : nat) (prog : list effect) (fs : fsys),
+    run_exc with_guards x k prog fs = run k prog fs /\
+    forall g, run_exc g XException k prog fs = run k prog fs.
+Proof. intros x k prog fs. split; [apply run_exc_with | intros g; apply run_exc_exception]. Qed.
+Print Assumptions C08_every_exception_class.
+
+(* ... whereas clean-up guarded by `except Exception:` would leave the staging area on Ctrl-C *)
+Theorem C08_except_exception_guard_refuted :
+  exists st m p ts tz ws zs fs k,
+    (p <> ts /\ p <> tz /\ ts <> tz /\ fs ts = Absent /\ fs tz = Absent) /\
+    fst (run_exc (fun _ => GExceptException) XKeyboardInterrupt k (save_prog st m p ts tz ws zs) fs) ts <> fs ts /\
+    fst (run_exc (fun _ => GExceptException) XException k (save_prog st m p ts tz ws zs) fs) ts = fs ts.
+Proof. exact except_exception_refuted. Qed.
+Print Assumptions C08_except_exception_guard_refuted.
+
+(* ---------------------------------------------------------------- non-vacuity (extension) *)
+Definition ex_loc (s : string) : path := 10 + String.length s.
+Definition ex_tmp (p : path) : path * path := (1, 2).
+
+Example C08_nonvacuous_resolve :
+  resolve AZip "obj" = (AZip, "obj.zip"%string) /\ resolve AAuto "obj.zip" = (AZip, "obj.zip"%string) /\
+  resolve AAuto "obj.ZIP" = (ADir, "obj.ZIP"%string) /\ resolve AZip "obj.zip.bak" = (AZip, "obj.zip.bak.zip"%string) /\
+  validate ADir "obj.ZIP" = VBadDirName /\ validate ADir "run.1/obj" = VStore SDir /\
+  validate ADir "obj/" = VStore SDir /\ validate AOther "obj" = VBadStore.
+Proof. repeat split; vm_compute; reflexivity. Qed.
+
+Example C08_nonvacuous_call :
+  (* hypotheses of the call theorems are satisfiable; write-once through the appended suffix *)
+  let fs : fsys := fun q => if Nat.eqb q 17 then Other 5 else if Nat.eqb q 13 then Other 6 else Absent in
+  ex_loc (snd (resolve AZip "obj")) = 17 /\ ex_loc "obj" = 13 /\
+  snd (run_call ex_loc ex_tmp 99 AZip "obj" MW [0; 1]%Z [500]%Z fs) = CExists /\
+  fst (run_call ex_loc ex_tmp 99 AZip "obj" MW [0; 1]%Z [500]%Z fs) 17 = Other 5 /\
+  (* overwrite: the resolved location gets the archive, the location of the name as given is untouched *)
+  snd (run_call ex_loc ex_tmp 99 AZip "obj" MO [0; 1]%Z [500]%Z fs) = CDone /\
+  fst (run_call ex_loc ex_tmp 99 AZip "obj" MO [0; 1]%Z [500]%Z fs) 17 = Zip true [500]%Z /\
+  fst (run_call ex_loc ex_tmp 99 AZip "obj" MO [0; 1]%Z [500]%Z fs) 13 = Other 6 /\
+  (* refused: directory store with a file-like name *)
+  snd (run_call ex_loc ex_tmp 99 AAuto "obj.ZIP" MO [0; 1]%Z [500]%Z fs) = CValue.
+Proof. repeat split; vm_compute; reflexivity. Qed.
+
+Example C08_nonvacuous_cleanup_env :
+  (* the two environments used by the harness satisfy the hypotheses of C08_cleanup_faults_agree /
+     C08_interrupted_removal; the witness of the refutation spelled out *)
+  ((forall h f r, ~ In r (htouches h) -> hrun stuck_env h f r = f r) /\
+   (forall e f r, r <> 1 -> r <> 2 -> inside stuck_env e f r = f r)) /\
+  load_model [1000%Z] (fst (run_x (rm_env (firstn 2) 0) 4 (save_prog SDir MO 0 1 2 [0; 1]%Z []) ex_fs3)) 0
+    = LObj [1000; 1001]%Z /\
+  load_model [1000%Z] ex_fs3 0 = LObj [1000; 1001; 1002]%Z.
+Proof. split; [exact (stuck_env_safe 0 1 2) | split; vm_compute; reflexivity]. Qed.
